@@ -569,12 +569,12 @@ package gldap
 //@   ensures  bindFn != nil ==> result == nil && len(m.routes) == old(len(m.routes)) + 1 && forall(j, 0, old(len(m.routes)), m.routes[j] == old(m.routes[j]))
 //@   ensures  bindFn != nil ==> typeIs(m.routes[old(len(m.routes))], *simpleBindRoute) && routeOK(m.routes[old(len(m.routes))]) && rbase(m.routes[old(len(m.routes))]).h == bindFn
 //@   panics false
-//@   tags C16 C03
+//@   tags C16 C03 C15
 //@ func (*gldap.Mux).Unbind
 //@   requires muxFree(m)
 //@   ensures  muxFree(m) && m.routes == old(m.routes)
 //@   panics false
-//@   tags C16 C03
+//@   tags C16 C03 C15
 //@ func (*gldap.Mux).Search
 //@   requires muxFree(m)
 //@   ensures  muxFree(m)
@@ -582,40 +582,40 @@ package gldap
 //@   ensures  searchFn != nil ==> result == nil && len(m.routes) == old(len(m.routes)) + 1 && forall(j, 0, old(len(m.routes)), m.routes[j] == old(m.routes[j]))
 //@   ensures  searchFn != nil ==> typeIs(m.routes[old(len(m.routes))], *searchRoute) && routeOK(m.routes[old(len(m.routes))]) && rbase(m.routes[old(len(m.routes))]).h == searchFn
 //@   panics false
-//@   tags C16 C03
+//@   tags C16 C03 C15
 //@ func (*gldap.Mux).ExtendedOperation
 //@   requires muxFree(m)
 //@   ensures  muxFree(m)
 //@   ensures  operationFn != nil ==> result == nil && len(m.routes) == old(len(m.routes)) + 1 && forall(j, 0, old(len(m.routes)), m.routes[j] == old(m.routes[j]))
 //@   ensures  operationFn != nil ==> typeIs(m.routes[old(len(m.routes))], *extendedRoute) && routeOK(m.routes[old(len(m.routes))]) && rbase(m.routes[old(len(m.routes))]).h == operationFn
 //@   panics false
-//@   tags C16 C03
+//@   tags C16 C03 C15
 //@ func (*gldap.Mux).Modify
 //@   requires muxFree(m)
 //@   ensures  muxFree(m)
 //@   ensures  modifyFn != nil ==> result == nil && len(m.routes) == old(len(m.routes)) + 1 && forall(j, 0, old(len(m.routes)), m.routes[j] == old(m.routes[j]))
 //@   ensures  modifyFn != nil ==> typeIs(m.routes[old(len(m.routes))], *modifyRoute) && routeOK(m.routes[old(len(m.routes))]) && rbase(m.routes[old(len(m.routes))]).h == modifyFn
 //@   panics false
-//@   tags C16 C03
+//@   tags C16 C03 C15
 //@ func (*gldap.Mux).Add
 //@   requires muxFree(m)
 //@   ensures  muxFree(m)
 //@   ensures  addFn != nil ==> result == nil && len(m.routes) == old(len(m.routes)) + 1 && forall(j, 0, old(len(m.routes)), m.routes[j] == old(m.routes[j]))
 //@   ensures  addFn != nil ==> typeIs(m.routes[old(len(m.routes))], *addRoute) && routeOK(m.routes[old(len(m.routes))]) && rbase(m.routes[old(len(m.routes))]).h == addFn
 //@   panics false
-//@   tags C16 C03
+//@   tags C16 C03 C15
 //@ func (*gldap.Mux).Delete
 //@   requires muxFree(m)
 //@   ensures  muxFree(m)
 //@   ensures  modifyFn != nil ==> result == nil && len(m.routes) == old(len(m.routes)) + 1 && forall(j, 0, old(len(m.routes)), m.routes[j] == old(m.routes[j]))
 //@   ensures  modifyFn != nil ==> typeIs(m.routes[old(len(m.routes))], *deleteRoute) && routeOK(m.routes[old(len(m.routes))]) && rbase(m.routes[old(len(m.routes))]).h == modifyFn
 //@   panics false
-//@   tags C16 C03
+//@   tags C16 C03 C15
 //@ func (*gldap.Mux).DefaultRoute
 //@   requires muxFree(m)
 //@   ensures  muxFree(m) && m.routes == old(m.routes)
 //@   panics false
-//@   tags C16 C03
+//@   tags C16 C03 C15
 
 // ==== server / connection life cycle (C05-C13, C17, C18) =====================================
 // Ghost state (DESIGN §4 T-LIFE, T-WG, T-TRACE). All ghosts are arrays indexed by a
@@ -717,7 +717,7 @@ package gldap
 //@   ensures  result ==> !isNilIface(s.listener) && G_listening[iref(s.listener)]
 //@   ensures  !held(&s.mu)
 //@   panics false
-//@   tags C17
+//@   tags C17 C15
 
 //@ func gldap.validateAddrPort
 //@   panics false
@@ -737,7 +737,7 @@ package gldap
 //@   sets     G_connclosed[result0] = 0 when err == nil
 //@   panics false
 //@   modifies conn.netConn, conn.reader, conn.writer
-//@   tags C09 C18
+//@   tags C09 C18 C15
 
 //@ func (*gldap.Server).Run$1
 //@   requires s != nil && !isNilIface(s.logger) && conn != nil && connOK(conn) && !isNilIface(c) && localConnID == conn.connID && G_wgcnt[&s.connWg] > 0
@@ -753,7 +753,7 @@ package gldap
 //@   ensures  !held(&s.mu)
 //@   ensures[C12] err == nil ==> !isNilIface(s.listener) && G_lclosed[iref(s.listener)]
 //@   panics false
-//@   tags C17 C09 C18
+//@   tags C17 C09 C18 C15
 //@ loop 1
 //@   invariant connID == G_maxid[0] && connID >= 0
 //@   invariant srvOK(s)
@@ -800,7 +800,7 @@ package gldap
 //@   sets     G_connclosed[c] = G_connclosed[c] + 1
 //@   panics false
 //@   modifies nothing
-//@   tags C08 C12
+//@   tags C08 C12 C15
 
 // teardown of one connection (deferred function of the connection goroutine)
 //@ func (*gldap.Server).Run$1$1
@@ -821,7 +821,7 @@ package gldap
 //@   ensures  result == nil && !(isNilIface(s.listener) && s.shutdownCancel == nil) ==> G_waited[&s.connWg]
 //@   panics false
 //@   modifies nothing
-//@   tags C12
+//@   tags C12 C15
 
 // ---- conn.go: reading, numbering, dispatch (C02, C06, C10, C13) ---------------------------------
 //@ func (*gldap.packet).Log
@@ -837,7 +837,7 @@ package gldap
 //@   ensures  !held(&c.mu) && unchanged(G_held) && unchanged(G_rheld)
 //@   panics false
 //@   modifies packet.validated, all(ber.Packet), cell(*ber.Packet), G_bufdata, G_pktnew
-//@   tags C02
+//@   tags C02 C15
 //@ func (*gldap.conn).readRequest
 //@   requires connOK(c) && !held(&c.mu) && requestID == G_nread[c] + 1 && !G_lastunbind[c] && !G_tlspending[c]
 //@   ensures  err == nil ==> result0 != nil && fresh(result0) && result0.ID == requestID && result0.conn == c && ownMsg(result0.message)
@@ -878,7 +878,7 @@ package gldap
 //@   exit     G_ncalls[0] <= old(G_ncalls[0]) + 1
 //@   panics any
 //@   modifies conn.netConn, conn.reader, conn.writer, G_nframes, G_npend, G_guard, G_wdst, G_rsrc, G_held, G_rheld, G_ncalls, G_lastfn, all(ber.Packet), cell(*ber.Packet), G_bufdata, G_pktnew, G_acq, G_werr, G_pendstr, G_flushed
-//@   tags C03
+//@   tags C03 C15
 //@ loop 1
 //@   invariant G_ncalls[0] == old(G_ncalls[0]) && forall(j, 0, rangeindex + 1, !routeMatches(m.routes[j], req))
 //@   invariant req != nil && muxOK(m) && wOK(w) && !held(w.writerMu)
@@ -906,7 +906,7 @@ package gldap
 //@   exit     forallref(W, *sync.WaitGroup, W != &c.requestsWg ==> G_wgcnt[W] == old(G_wgcnt[W]))
 //@   panics any
 //@   modifies conn.netConn, conn.reader, conn.writer, packet.validated, all(ber.Packet), cell(*ber.Packet), G_bufdata, G_pktnew
-//@   tags C06 C10 C13
+//@   tags C06 C10 C13 C15
 //@ loop 1
 //@   invariant requestID == G_nread[c] && !G_lastunbind[c] && !G_tlspending[c]
 //@   invariant connOK(c) && G_role[0] == 2
@@ -1079,13 +1079,14 @@ package gldap
 //@   ensures  !held(rw.writerMu) && unchanged(G_held) && unchanged(G_rheld)
 //@   ensures  result == nil ==> G_nframes[rw.writerMu] == G_acq[rw.writerMu] + 1 && G_npend[rw.writer] == 0 && !G_werr[rw.writer]
 //@   ensures  isNilIface(r) ==> result != nil
+//@   ensures[C05,C15] unchangedExcept("G_npend, G_pendstr, G_werr", rw.writer)
 //@   sets     G_lastok[rw.writerMu] = (result == nil)
 //@   sets     G_lasttag[rw.writerMu] = respTag(r) when result == nil
 //@   sets     G_lastcode[rw.writerMu] = respCode(r) when result == nil
 //@   sets     G_lastid[rw.writerMu] = respID(r) when result == nil
 //@   panics false
 //@   modifies all(ber.Packet), cell(*ber.Packet), G_bufdata, G_pktnew
-//@   tags C05 C04
+//@   tags C05 C04 C15
 
 //@ func (*gldap.conn).initConn
 //@   requires c != nil && !held(&c.mu)
@@ -1095,7 +1096,7 @@ package gldap
 //@   sets     G_guard[c.writer] = &c.writerMu when result == nil
 //@   panics false
 //@   modifies conn.netConn, conn.reader, conn.writer
-//@   tags C05 C13 C18
+//@   tags C05 C13 C18 C15
 
 // ---- routes (C03) ---------------------------------------------------------------------------------
 //@ pure rbase(r route) *baseRoute = cond(typeIs(r, *baseRoute), r.(*baseRoute), cond(typeIs(r, *searchRoute), r.(*searchRoute).baseRoute, cond(typeIs(r, *simpleBindRoute), r.(*simpleBindRoute).baseRoute,
@@ -1137,3 +1138,24 @@ package gldap
 //@   panics false
 //@   modifies nothing
 //@   tags C03
+
+// ---- C15: lockset discipline for gldap's shared mutable fields -----------------------------
+// Writes need the lock. Reads need it too, except in the functions named after
+// `unlocked`: those run on the one thread that writes the field (Run for the
+// listener; the connection goroutine for the conn fields) or rely on the
+// statement's hypothesis that routes are registered before Run (Mux fields,
+// Server.router).
+//@ protect gldap.Server.listener by mu unlocked (*gldap.Server).Run
+//@ protect gldap.Server.listenerReady by mu
+//@ protect gldap.Server.router by mu unlocked (*gldap.Server).Run
+//@ protect gldap.Mux.routes by mu unlocked (*gldap.Mux).serve
+//@ protect gldap.Mux.defaultRoute by mu unlocked (*gldap.Mux).serve
+//@ protect gldap.Mux.unbindRoute by mu unlocked (*gldap.conn).serveRequests
+//@ protect gldap.conn.reader by mu
+//@ protect gldap.conn.netConn by mu unlocked (*gldap.conn).serveRequests (*gldap.conn).close
+//@ protect gldap.conn.writer by mu unlocked (*gldap.conn).serveRequests
+//@ func (*gldap.Server).Router
+//@   requires s != nil && !held(&s.mu)
+//@   ensures  !held(&s.mu)
+//@   panics false
+//@   tags C15
